@@ -727,16 +727,6 @@ impl Case {
                 }
             }
         }
-        if std::env::var("REG_DEBUG").is_ok() {
-            for (i, c) in self.conns.iter().enumerate() {
-                eprintln!(
-                    "DBG now={now} link {i}: connected={} lr={:?} est={} grace={} last_attempt={} fails={} timed_out={} should={}",
-                    c.connected, c.last_received, c.reconnection.connection_established_ms,
-                    c.reconnection.startup_grace_deadline_ms, c.reconnection.last_reconnect_attempt_ms,
-                    c.reconnection.reconnect_failure_count, c.is_timed_out(now), c.should_attempt_reconnect(now)
-                );
-            }
-        }
         let forced_attempt: Vec<u64> = self.conns.iter().map(|c| c.reconnection.last_reconnect_attempt_ms).collect();
         let sh = self.shell.as_mut().unwrap();
         let res = {
@@ -1480,6 +1470,7 @@ impl RegComp {
                     if rng.chance(2, 3) {
                         t += 1000 - (t % 1000);
                     }
+                    shadow.fresh = false; // as the `nattick` op does
                     let eff = match std::panic::catch_unwind(std::panic::AssertUnwindSafe(|| {
                         shadow.do_hktick(&env, t, &[], false, &mut mon)
                     })) {
